@@ -251,6 +251,9 @@ structure Request where
   /-- no RRSIG of the RRset is a candidate at all (`rrsig` is then meaningless); set by
   `MultiRequest.toRequest` -/
   skip : Bool := false
+  /-- the DNSKEY lookup for the RRSIG fails (`Err(ProofErrorKind::Net)`: upstream error, validation depth
+  exceeded): the RRset is Bogus for this response and the verdict is **not** cached -/
+  netError : Bool := false
   deriving Repr, Inhabited
 
 /-- `MAX_RRSIGS_PER_RRSET` -/
@@ -275,7 +278,7 @@ def freshVerdict (sigValid : SigOracle) (r : Request) : Verdict :=
   -- since /repo 207ce2a: an RRSIG whose signer is not the owner or an ancestor of it is skipped without
   -- a DNSKEY lookup (→ `Err(RrsigsNotPresent)`, Bogus); since 4f49cf9 also an RRSIG over a DS RRset
   -- (type 43) that names the DS owner itself as signer
-  if noLookup r then { isOk := false, proof := .bogus, adjustedTtl := none }
+  if noLookup r || r.netError then { isOk := false, proof := .bogus, adjustedTtl := none }
   else
     match verifyRrsigWithKeys sigValid r.dnskeys r.rrsig r.keyName r.keyType r.records r.now with
     | some (p, ttl) => { isOk := true, proof := p, adjustedTtl := ttl }
@@ -307,7 +310,8 @@ def validateG (sigValid : SigOracle) (cfg : CacheConfig) (serve : CacheEntry →
   | some v => (c, v, false)
   | none =>
     let v := freshVerdict sigValid r
-    (cacheInsert cfg c r v, v, true)
+    -- "These could be transient errors that should be retried": a `Net` error is not cached
+    (if !(noLookup r) && r.netError then c else cacheInsert cfg c r v, v, true)
 
 /-- a whole history, oldest request first; returns the per-request (verdict, fresh) list -/
 def runHistoryG (sigValid : SigOracle) (cfg : CacheConfig) (serve : CacheEntry → Request → Option Verdict) :
@@ -391,6 +395,8 @@ structure MultiRequest where
   /-- `Time::current_time()`, seconds since the epoch, `u64` -/
   clock : Nat
   inst : Nat
+  /-- every DNSKEY lookup fails -/
+  netError : Bool := false
   deriving Repr, Inhabited
 
 /-- the first candidate RRSIG with its index into the unfiltered list -/
@@ -407,7 +413,11 @@ def MultiRequest.toRequest (m : MultiRequest) : Request × Option Nat :=
   match firstCandidate m.keyName m.keyType 0 m.rrsigs with
   | some (i, sig) =>
     ({ ck := m.ck, dnskeys := m.dnskeys, rrsig := sig, keyName := m.keyName, keyType := m.keyType,
-       records := m.records, now := clock32 m.clock, inst := m.inst }, some i)
+       records := m.records, now := clock32 m.clock, inst := m.inst,
+       -- the DNSKEY lookup also fails when the response carries no DNSKEY record at the signer's name
+       -- (`verify_response`, since /repo 2bee91e: such a response does not answer the question → Bogus
+       -- → `Err`, which `verify_default_rrset` turns into `ProofErrorKind::Net`)
+       netError := m.netError || !(m.dnskeys.any fun kp => Name.eq kp.1.owner sig.input.signer) }, some i)
   | none =>
     ({ ck := m.ck, dnskeys := m.dnskeys, rrsig := default, keyName := m.keyName, keyType := m.keyType,
        records := m.records, now := clock32 m.clock, inst := m.inst, skip := true }, none)
